@@ -281,8 +281,8 @@ def run_check(pid, tier, seed, a, scratch, t0):
     twin = sum(r['twin_reached'] for r in results)
 
     wall = time.time() - t0
-    exhaustive = bool(results or xh_results) and all(r['exhausted'] and not r['unknown'] and not (set(r['flags']) - set(accepted_flags)) for r in results) \
-        and all(x.get('confirmed') for x in xh_results)
+    exhaustive = bool(results or xh_results) and all(r['exhausted'] and not r['unknown'] and not (set(r['flags']) - set(accepted_flags)) for r in results)
+    xh_confirmed = all(x.get('confirmed') for x in xh_results) if xh_results else None
     level = manifest_level(pid)
     samples = []
     for r in results:
@@ -305,6 +305,9 @@ def run_check(pid, tier, seed, a, scratch, t0):
                 'decided at least one symbolic branch and reached at least one assertion of the oracle; paths are '
                 'distinct by construction (each is a different sequence of branch decisions)',
         'exhaustive': exhaustive,
+        'exhaustive_scope': 'the symx cases (path trees of all cases exhausted, no unknown, no unaccepted engine flag); CrossHair conditions are reported '
+                            'one by one under "crosshair" - only the verdict "confirmed" is a claim over all inputs within the bound',
+        'crosshair_all_confirmed': xh_confirmed,
         'explanation': 'bounded symbolic execution of the regenerated frappy source (see DESIGN.md section 2); '
                        'states = explored paths, transitions = solver-decided branches',
         'cases': len(results),
